@@ -631,6 +631,141 @@ fn run_resumed_accounting(out: &mut Outcome) -> u64 {
     cnt
 }
 
+/// The sender link of a transaction CONTROLLER (the control link is an ordinary sending link as far as C08 goes; its
+/// rollback-on-drop takes the synchronous `try_consume` path).  The scripted coordinator grants credit one at a time
+/// and only when told to.  `drops` transactions are declared and dropped undischarged: with `credit_at_drop` the
+/// coordinator has re-granted before each drop (the rollback goes out), without it the link has no credit when the
+/// handle is dropped (the rollback is refused and nothing is sent).  Then one credit is granted, counted from the
+/// deliveries the coordinator has really seen, and a further declare is issued: it must be transmitted and complete
+/// ("a send that is waiting for credit completes as soon as sufficient credit has been granted"), and the link never
+/// transmits more deliveries than the latest flow allows.
+pub async fn controller_scenario(drops: usize, credit_at_drop: bool) -> (Vec<(String, String)>, Vec<String>, Option<String>) {
+    use fe2o3_amqp::transaction::{Controller, Transaction, TransactionBase};
+    use fe2o3_amqp_types::definitions::Role;
+    use fe2o3_amqp_types::messaging::{Accepted, DeliveryState};
+    use fe2o3_amqp_types::transaction::Declared;
+    let mut fails = vec![];
+    let mut auto = Auto::default();
+    auto.max_frame_size = 512;
+    auto.incoming_window = 100_000;
+    let mut c = match scen::open_client(auto, 512).await {
+        Ok(c) => c,
+        Err(e) => return (fails, vec![], Some(e)),
+    };
+    let mut session = match scen::begin(&mut c, Session::builder()).await {
+        Ok(s) => s,
+        Err(e) => return (fails, vec![], Some(e)),
+    };
+    let ctrl: &'static Controller = match drive(&mut c.peer, Controller::attach(&mut session, "ctl"), scen::H).await {
+        Some(Ok(x)) => Box::leak(Box::new(x)),
+        _ => return (fails, trace_to_strings(&c.peer.trace), Some("controller scenario: attach failed".into())),
+    };
+    let lib_handle = c.peer.links.last().map(|l| l.lib_handle).unwrap_or(0);
+    // the coordinator: answers every complete control message it has not answered yet (declare -> declared, discharge ->
+    // accepted); returns the number of control messages seen so far
+    let mut answered = 0usize;
+    let mut react = |peer: &mut vlib::peer::Peer| -> usize {
+        let msgs: Vec<u32> = peer
+            .trace
+            .iter()
+            .filter_map(|w| match (w.dir, w.perf()) {
+                (Dirn::FromLib, Some(Performative::Transfer(t))) if t.handle.0 == lib_handle && !t.more => t.delivery_id,
+                _ => None,
+            })
+            .collect();
+        while answered < msgs.len() {
+            let did = msgs[answered];
+            // the first message of each pair is a declare unless a rollback went out: tell by the payload (a declare body is the
+            // described list 0x31, a discharge 0x32)
+            let is_declare = peer.trace.iter().any(|w| w.dir == Dirn::FromLib && matches!(w.perf(), Some(Performative::Transfer(t)) if t.delivery_id == Some(did)) && w.payload.windows(3).any(|x| x == [0x00, 0x53, 0x31]));
+            let state = if is_declare { DeliveryState::Declared(Declared { txn_id: serde_bytes::ByteBuf::from(vec![0xab, answered as u8]) }) } else { DeliveryState::Accepted(Accepted {}) };
+            peer.send(0, Performative::Disposition(Disposition { role: Role::Receiver, first: did, last: None, settled: true, state: Some(state), batchable: false }));
+            answered += 1;
+        }
+        msgs.len()
+    };
+    let what = format!("{drops} transaction(s) declared and dropped undischarged, the control link {} credit at the drop", if credit_at_drop { "has" } else { "has no" });
+    for k in 0..drops {
+        c.peer.grant(0, lib_handle, 1);
+        settle(&mut c.peer, 1).await;
+        let fut = Transaction::declare(ctrl, None);
+        tokio::pin!(fut);
+        let mut txn = None;
+        for _ in 0..20 {
+            tokio::select! { biased;
+                r = &mut fut => { txn = Some(r); break; }
+                _ = tokio::time::sleep(Duration::from_millis(1)) => { c.peer.pump(); react(&mut c.peer); }
+            }
+        }
+        let txn = match txn {
+            Some(Ok(t)) => t,
+            Some(Err(e)) => return (fails, trace_to_strings(&c.peer.trace), Some(format!("controller scenario: declare #{k} failed: {e:?}"))),
+            None => return (fails, trace_to_strings(&c.peer.trace), Some(format!("controller scenario: declare #{k} hangs with credit granted (set-up)"))),
+        };
+        if credit_at_drop {
+            c.peer.grant(0, lib_handle, 1);
+            settle(&mut c.peer, 1).await;
+        }
+        drop(txn);
+        settle(&mut c.peer, 2).await;
+        react(&mut c.peer);
+        settle(&mut c.peer, 1).await;
+    }
+    // one credit, counted from what the coordinator has really seen on the link
+    let seen = react(&mut c.peer);
+    let (started0, _) = deliveries_started(&c.peer.trace, lib_handle);
+    if started0 != seen {
+        return (fails, trace_to_strings(&c.peer.trace), Some(format!("controller scenario: {started0} deliveries started, {seen} complete")));
+    }
+    c.peer.grant(0, lib_handle, 1);
+    settle(&mut c.peer, 2).await;
+    let fut = Transaction::declare(ctrl, None);
+    tokio::pin!(fut);
+    let mut done = None;
+    for _ in 0..50 {
+        tokio::select! { biased;
+            r = &mut fut => { done = Some(r.map(|_| ()).map_err(|e| format!("{e:?}"))); break; }
+            _ = tokio::time::sleep(Duration::from_millis(1)) => { c.peer.pump(); react(&mut c.peer); }
+        }
+    }
+    let (started1, _) = deliveries_started(&c.peer.trace, lib_handle);
+    match done {
+        Some(Ok(())) => {}
+        Some(Err(e)) => fails.push(("controller: declare-failed-with-credit".to_string(), format!("{what}; then the coordinator granted 1 credit (delivery-count {seen}): declare returned {e}"))),
+        None => fails.push((
+            "blocked-send-not-woken (control link)".to_string(),
+            format!("{what}; then the coordinator granted 1 credit counted from the {seen} deliveries it has seen: {} delivery(ies) started after the grant, declare() is still pending", started1 - started0),
+        )),
+    }
+    if started1 - started0 > 1 {
+        fails.push(("credit-exceeded (control link)".to_string(), format!("{what}; after a grant of 1 credit the link started {} deliveries", started1 - started0)));
+    }
+    (fails, trace_to_strings(&c.peer.trace), None)
+}
+
+fn run_controller(out: &mut Outcome) -> u64 {
+    let mut n = 0;
+    for drops in 1..=3usize {
+        for credit_at_drop in [false, true] {
+            let scen: Scenario<(Vec<(String, String)>, Vec<String>, Option<String>)> = Arc::new(move || Box::pin(controller_scenario(drops, credit_at_drop)));
+            let ex = run_exec(vec![], &RunCfg::none(), &scen);
+            n += 1;
+            match ex.out {
+                Some((fails, trace, mach)) => {
+                    if let Some(m) = mach {
+                        out.machinery_errors.push(m);
+                    }
+                    for (s, d) in fails {
+                        out.violation(s, d, json!({"kind": "controller", "drops": drops, "credit_at_drop": credit_at_drop, "trace": trace}));
+                    }
+                }
+                None => out.machinery_errors.push(format!("controller scenario drops={drops} credit={credit_at_drop} died: {:?}", ex.panics)),
+            }
+        }
+    }
+    n
+}
+
 fn run_resumed(out: &mut Outcome) -> u64 {
     let mut n = 0;
     for cycles in 1..=2usize {
@@ -756,6 +891,8 @@ pub fn run(ctx: &Ctx) -> Outcome {
     let sched = schedule_wakeup(ctx, deadline, &mut out);
     let parked = run_parked(&mut out);
     let resumed = run_resumed(&mut out) + run_resumed_accounting(&mut out);
+    let ctl = run_controller(&mut out);
+    out.set("control_link_scenarios", ctl);
     // the LISTENER side (scripted client, link flows sent before the application accepted the link)
     let (l_exec, l_states) = crate::c07_lsn::part_l(ctx, deadline + Duration::from_secs(60), &mut out);
     executions += l_exec;
@@ -876,6 +1013,19 @@ fn replay(p: &std::path::Path, mut out: Outcome) -> Outcome {
         for (s, d) in o.fails {
             println!("  FAIL {s}: {d}");
             out.violation(s, d, r.clone());
+        }
+    } else if r["kind"] == "controller" {
+        let (drops, cad) = (r["drops"].as_u64().unwrap_or(1) as usize, r["credit_at_drop"].as_bool().unwrap_or(false));
+        let scen: Scenario<(Vec<(String, String)>, Vec<String>, Option<String>)> = Arc::new(move || Box::pin(controller_scenario(drops, cad)));
+        let ex = run_exec(vec![], &RunCfg::none(), &scen);
+        if let Some((fails, trace, _)) = ex.out {
+            for l in &trace {
+                println!("  {l}");
+            }
+            for (s, d) in fails {
+                println!("  FAIL {s}: {d}");
+                out.violation(s, d, r.clone());
+            }
         }
     } else if r["kind"] == "resumed-accounting" {
         let (g, k, n) = (r["g"].as_u64().unwrap_or(1) as u32, r["k"].as_u64().unwrap_or(0) as u32, r["n"].as_u64().unwrap_or(1) as u32);
